@@ -34,11 +34,47 @@ def hook_ok(S, cfg, ty):
         return False
 
 
+def initfalse_payloads(chk, G, S, w, ty, base):
+    """valid payload + the key of an `init=False` attribute (the generated dict hooks do not emit it, so an
+    unstructure/structure round never carries it): with a value of the attribute's type and with junk"""
+    if isinstance(ty, str) or ty[0] != "cls" or base[0] != "d":
+        return []
+    out = []
+    for f in w["classes"][ty[1]]["fields"]:
+        if f["init"] or any(k == ("s", f["name"]) for k, _ in base[1]):
+            continue
+        vals = [G.junk(w, 1)]
+        if f["ty"] is not None:
+            vals.append(G.value(w, f["ty"], 1, any_stable=True))
+        for v in vals:
+            p = ("d", list(base[1]) + [(("s", f["name"]), v)])
+            try:
+                pv, p2 = S.realise(p)
+            except Exception:
+                continue
+            if not gen.lookalike_hazard(p2):
+                out.append(("initfalse-key", p2, pv))
+    return out
+
+
 def run(chk: framework.Check):
     drv = lean.Driver()
-    n_worlds = 250 if chk.tier == "quick" else 3000
+    n_worlds = 400 if chk.tier == "quick" else 4000
     corr_fail = []
-    for G, S, w in streams.worlds(chk, drv, n_worlds, unions=True):
+    for G, S, w in streams.worlds(chk, drv, n_worlds, unions=True, nt=True):
+        # "creating the hook for T succeeds in one mode exactly when in the other": every class of the world, not only
+        # the ones the type stream happens to draw (hook creation is where template-specific generation code runs)
+        for ci, c in enumerate(w["classes"]):
+            cty = ({"td": "td", "nt": "nt"}.get(c["kind"], "cls"), ci)
+            for base in BASES:
+                cd, cf = dict(base, detailed=True), dict(base, detailed=False)
+                if not gen.supported(cd, w, cty):
+                    continue
+                hd, hf = hook_ok(S, cd, cty), hook_ok(S, cf, cty)
+                chk.note("class-hook-creation:" + ("both" if hd and hf else "neither" if not hd and not hf else "DIFFER"))
+                if hd != hf:
+                    chk.violation(f"C04 oracle: hook creation differs (detailed={hd}, fast={hf}) [{cfg_name(cd)} {terms.ty_sx(cty)}]",
+                                  {"world": w, "cfg": cd, "ty": cty, "op": "genok"})
         for ty, x, xv in streams.typed_values(chk, G, S, w, n_types=4, n_values=1):
             has_union = bool(gen.reach_unions(w, ty))
             for base in BASES:
@@ -57,7 +93,9 @@ def run(chk: framework.Check):
                 if u[0] != "ok":
                     chk.note("unstructure-failed(skipped)")
                     continue
-                for kind, p, pv in streams.payloads(chk, G, S, w, u[1]):
+                plist = list(streams.payloads(chk, G, S, w, u[1]))
+                plist += initfalse_payloads(chk, G, S, w, ty, u[1])
+                for kind, p, pv in plist:
                     rd = S.impl_st(cd, ty, p, payload=pv)
                     rf = S.impl_st(cf, ty, p, payload=pv)
                     case = {"world": w, "cfg": cd, "ty": ty, "payload": p}
